@@ -245,6 +245,72 @@ def _shared_manifest(same_dep, declared, swap):
     return ok
 
 
+SETUP_PY = 'from setuptools import setup\n\nversion = "1"\nsetup(\n    name="x",\n    install_requires=[\n        "requests",\n    ],\n)\n'
+
+
+def manifest_rewritten_between_codemods(a_first: bool, dry_run: bool) -> bool:
+    """One run with codemod A (needs a new dependency; the real SetupPyWriter adds it to setup.py when A's
+    dependencies are processed) and codemod B (a real LibcstTransformerPipeline editing setup.py itself), in either
+    order: B works on what is on disk when its turn comes, so the final setup.py carries both A's dependency and B's
+    edit, exactly as after one-at-a-time runs; a dry run leaves the file alone.
+    post: _
+    """
+    import libcst as cst
+
+    import codemodder.codemods.base_codemod as bc
+    import codemodder.dependency_management.setup_py_writer as spw
+    from codemodder.codemods.base_codemod import FindAndFixCodemod, Metadata, ReviewGuidance
+    from codemodder.codemods.libcst_transformer import LibcstTransformerPipeline
+    from codemodder.project_analysis.file_parsers.package_store import FileType, PackageStore
+    from harness import c11
+    from vlib.stubs import FakePath
+
+    fp = FakePath(SETUP_PY.encode(), rel="setup.py")  # also served through builtins.open("/d/setup.py")
+
+    class TB:
+        @classmethod
+        def transform(cls, tree, results, file_context):
+            file_context.codemod_changes.append(Change(lineNumber=3, description="d"))
+            return cst.parse_module(tree.code.replace('version = "1"', 'version = "2"'))
+
+    class _FF(FindAndFixCodemod):
+        @property
+        def origin(self):
+            return "verif"
+
+        @property
+        def docs_module_path(self):
+            return "verif"
+
+    md = lambda n: Metadata(name=n, summary="s", review_guidance=ReviewGuidance.MERGE_WITHOUT_REVIEW, description="d")
+
+    class TA:
+        @classmethod
+        def transform(cls, tree, results, file_context):
+            file_context.add_dependency(DefusedXML)
+            return tree
+
+    A = _FF(metadata=md("a"), transformer=LibcstTransformerPipeline(TA))
+    B = _FF(metadata=md("b"), transformer=LibcstTransformerPipeline(TB))
+    with NoTracing():
+        ctx = CodemodExecutionContext(Path("/d"), dry_run, False, None, None, None, [], [], {}, 1)
+    ctx.__dict__["find_and_fix_paths"] = [fp]
+    ctx.__dict__["files_to_analyze"] = [fp]
+
+    class RM:
+        package_stores = [PackageStore(type=FileType.SETUP_PY, file=Path("/d/setup.py"), dependencies={"requests"}, py_versions=[])]
+
+    ctx.repo_manager = RM()
+    c11.install_executor(bc)
+    c11.SchedExecutor.ORDER = [0, 1, 2]
+    with NoTracing():  # concrete libcst runs (the symbolic part is the order and the dry-run flag, already decided)
+        cmod.apply_codemods(ctx, [A, B] if a_first else [B, A])
+    final = fp.content.decode()
+    if dry_run:
+        return fin(final == SETUP_PY and fp.writes == [])
+    return fin('version = "2"' in final and "defusedxml==0.7.1" in final and '"requests"' in final and final.count("defusedxml") == 1)
+
+
 def planted_cross_talk(a: int, b: int) -> bool:
     """Self-test: an aggregator keyed by nothing (one shared list) must be refuted by the step oracle.
     post: _
@@ -259,6 +325,7 @@ def warmup():
     batch_equals_sequential(3, 3, True, False, 1, 0, False, True)
     shared_manifest(True, False, False)
     shared_manifest(False, True, True)
+    manifest_rewritten_between_codemods(True, False)
 
 
 SPEC = {
@@ -284,6 +351,7 @@ SPEC = {
         Xh("inductive_step", 400, 1800),
         Xh("batch_equals_sequential", 500, 1200),
         Xh("shared_manifest", 200, 400),
+        Xh("manifest_rewritten_between_codemods", 200, 400),
         Xh("planted_cross_talk", 60, 120, twin=False, expect="refuted"),
     ],
 }
